@@ -99,7 +99,21 @@ func (s *sched) yield(point string) {
 	<-w.resume
 }
 
+// heldChanged: a Stream may keep the slices it is given; when all calls have returned each of them must still
+// hold the messages it held when it was delivered.
+func heldChanged(held []heldSlice) string {
+	for i, hs := range held {
+		for j := range hs.then {
+			if j >= len(hs.given) || hs.given[j] != hs.then[j] {
+				return fmt.Sprintf("the slice handed to ReassemblyComplete call %d (%d messages, sequence %d) was rewritten afterwards: element %d is another message now", i, len(hs.then), hs.then[0].Sequence, j)
+			}
+		}
+	}
+	return ""
+}
+
 type c11stream struct {
+	held     []heldSlice
 	r        *libaudit.Reassembler
 	mu       sync.Mutex // only contended in free-run mode
 	got      map[*auparse.AuditMessage]int
@@ -153,6 +167,7 @@ func (ru *c11run) close(r *libaudit.Reassembler) {
 func (s *c11stream) ReassemblyComplete(msgs []*auparse.AuditMessage) {
 	s.mu.Lock()
 	s.delivers++
+	s.held = append(s.held, heldSlice{given: msgs, then: append([]*auparse.AuditMessage(nil), msgs...)})
 	if len(msgs) == 0 {
 		s.bad = "ReassemblyComplete with no messages"
 	}
@@ -323,6 +338,9 @@ func runSchedule(c C11Case) c11result {
 	}
 done:
 	res.delivers = st.delivers
+	if hc := heldChanged(st.held); hc != "" && st.bad == "" {
+		st.bad = hc
+	}
 	if st.bad != "" {
 		res.violation = st.bad
 		return res
@@ -518,6 +536,7 @@ func TestC11Exhaustive(t *testing.T) {
 // uncontrolled stress under the race detector
 
 type stressStream struct {
+	held   []heldSlice
 	mu     sync.Mutex
 	got    map[*auparse.AuditMessage]int
 	gotRaw map[string]int // records that went in through Push(type, raw data), by their text
@@ -527,6 +546,7 @@ type stressStream struct {
 
 func (s *stressStream) ReassemblyComplete(msgs []*auparse.AuditMessage) {
 	s.mu.Lock()
+	s.held = append(s.held, heldSlice{given: msgs, then: append([]*auparse.AuditMessage(nil), msgs...)})
 	if len(msgs) == 0 {
 		s.bad = "empty callback"
 	}
@@ -638,6 +658,9 @@ func TestC11Stress(t *testing.T) {
 		hC11.End()
 		hC11.Eval()
 		c := C11Case{MaxInFlight: maxInFlight, Reenter: "maintain"}
+		if hc := heldChanged(st.held); hc != "" && st.bad == "" {
+			st.bad = hc
+		}
 		if st.bad != "" {
 			hC11.Fail(t, "TestC11Stress", c, "stress round %d: %s", it, st.bad)
 		}
@@ -768,6 +791,9 @@ func TestC11CloseVsPush(t *testing.T) {
 					hC11.Fail(t, "TestC11CloseVsPush", c, "attempt %d: a record pushed while Close was running (seq %d) was delivered %d times", attempt, m.Sequence, st.got[m])
 				}
 			}
+		}
+		if hc := heldChanged(st.held); hc != "" && st.bad == "" {
+			st.bad = hc
 		}
 		if st.bad != "" {
 			hC11.Fail(t, "TestC11CloseVsPush", c, "attempt %d: %s", attempt, st.bad)
